@@ -539,3 +539,13 @@ T("C06", "twin-seed-content-test-only-logs", C2, FBM,
   "        if not any(metadata.aes_rand):\n            logger.debug(\"all-zero aes_rand\")\n" + FBM)
 T("C06", "twin-seed-content-test-unrecognised-undecided", C2, FBM,
   "        if metadata.aes_rand.count(0) > 16:\n            raise ValueError(\"impossible\")\n" + FBM)
+
+# ------------------------------------------------------------------------------------------------ R12 (round 8, C06o)
+_MAGIC_OLD = ("    if metadata.magic != 0xBEEF:\n"
+              "        raise ValueError(f\"Invalid metadata magic, got {metadata.magic:08x}, expected 0xbeef\")\n")
+M("C06", "raw-magic-test-two-byte-suffix", "c2.py", _MAGIC_OLD,
+  "    if not pt[:4].endswith(b\"\\xbe\\xef\"):\n        raise ValueError(\"Invalid metadata magic\")\n", "C06.R12")
+M("C06", "raw-magic-test-narrow-slice", "c2.py", _MAGIC_OLD,
+  "    if pt[2:4] != b\"\\xbe\\xef\":\n        raise ValueError(\"Invalid metadata magic\")\n", "C06.R12")
+T("C06", "twin-raw-magic-test-whole-field", "c2.py", _MAGIC_OLD,
+  "    if pt[:4] != b\"\\x00\\x00\\xbe\\xef\":\n        raise ValueError(\"Invalid metadata magic\")\n")
